@@ -10,6 +10,23 @@ CLAIMS = {
    technique="Lean 4 proof of the comparison algebra + model/implementation correspondence + law judge on implementation verdicts",
    ref="DESIGN.md §5 C13"),
 }
+CLAIMS.update({
+ "C01": dict(
+   text="An independent executable reading of the documented semantics (Guard/Spec, Lean) is compared with the implementation's verdicts on every case of an exhaustive single-clause stream and of random core-fragment programs (judge), the hand-written Lean model of the evaluator is compared with the implementation on the same cases (whole record trees), and Lean theorems prove layer by layer, for all values, that model and Spec coincide (unresolved paths FAIL both polarities / satisfy empty and !exists, empty selection = SKIP, one scalar vs one scalar literal under <,<=,>,>= gives exactly the Spec's check, quantifiers and three-valued folds are the Spec's). The end-to-end refinement Impl.runFile = Spec.runFile is kept as a statement and checked per case, not proved: the claim is partial in that sense.",
+   note="Trusted: Lean kernel; the Spec's reading of docs/*.md (DESIGN Appendix E) - constructs it declares `outside` (query right-hand sides, functions, parameterised rules, type blocks, key-case fallback, numeric-looking keys, duplicate lets) are not judged; generators; Env oracles.",
+   technique="Lean 4 executable specification + refinement lemmas (proved) + Spec-vs-implementation judge + model/implementation correspondence",
+   ref="DESIGN.md §5 C01, §4.4"),
+ "C02": dict(
+   text="The evaluator model computes every composite status through five aggregators; Lean theorems characterise them for child lists of every length (line = PASS iff one alternative passed / FAIL iff none passed and one failed; body, file, type block, filter likewise; clause quantifiers; named references; permutation and duplication invariance). The same statement as a decidable predicate on record trees (`Consistent`, Lean, compiled into the driver) is run on the IMPLEMENTATION's own record tree for every generated case, whole trees are compared with the model, and all CNF shapes up to LxA with leaves forced to PASS/FAIL/SKIP are enumerated at five sites and the file.",
+   note="Trusted: Lean kernel; `Consistent` reads the tree only, so `some` vs all and the polarity of a named/parameterised reference are accepted in either reading (covered by C01/C03); the record stack discipline of the Rust recorder is modelled as tree construction.",
+   technique="Lean 4 proof of the aggregation laws + Lean-defined tree-consistency judge on implementation records + exhaustive CNF-shape enumeration + correspondence",
+   ref="DESIGN.md §5 C02"),
+ "C03": dict(
+   text="Lean theorems: for every unary operator, value and polarity the check depends only on the XOR of prefix and operator negation (so `not X op` = `X !op`, double negation restores); for every binary operator the clause with a prefix not IS the clause with the operator-level not, as state transformers of the evaluator model (same status, records, errors, any query / right-hand side / scope / fuel); a single comparable value flips, not-comparable stays FAIL; `not X > v` iff `X <= v`; `not R` PASS iff R is not PASS. Tied by an exhaustive operator x polarity x shape stream on which the implementation's own verdicts are judged against these relations.",
+   note="Trusted: Lean kernel, correspondence harness. Two genuine defects were repaired (fix: commits 3bc6070, 6f7d7a5); the model follows the repaired code.",
+   technique="Lean 4 proof (clause-level equality of state transformers, value-level XOR law) + exhaustive relational judge on implementation verdicts",
+   ref="DESIGN.md §5 C03"),
+})
 REASONS = {}
 def main():
     checks = []
